@@ -57,6 +57,8 @@ enum Probe {
     SigPan { rate: usize, mode: usize, ch: usize },
     /// public API: finite and bounded under random writes
     SigFuzz { rate: usize, seed: u64, dc: bool, ym: bool },
+    /// FIR table of the ℚ-model vs the source text
+    Fir,
     /// ports 0xFFFD / 0xBFFD on an Emulator: s<val> select, w<val> write, r read
     Port { m128: bool, alias: bool, ops: Vec<(char, u8)> },
 }
@@ -106,6 +108,7 @@ impl Probe {
             Probe::SigFuzz { rate, seed, dc, ym } => {
                 format!("sigfuzz rate={} seed={} dc={} ym={}", rate, seed, *dc as u8, *ym as u8)
             }
+            Probe::Fir => "fir".to_string(),
             Probe::Port { m128, alias, ops } => format!(
                 "port m128={} alias={} ops={}",
                 *m128 as u8,
@@ -142,6 +145,7 @@ impl Probe {
             "sigenv" => Probe::SigEnv { ym: b("ym")?, rate: n("rate")? as usize, shape: n("shape")? as u8 },
             "sigpan" => Probe::SigPan { rate: n("rate")? as usize, mode: n("mode")? as usize, ch: n("ch")? as usize },
             "sigfuzz" => Probe::SigFuzz { rate: n("rate")? as usize, seed: n("seed")?, dc: b("dc")?, ym: b("ym")? },
+            "fir" => Probe::Fir,
             "port" => Probe::Port {
                 m128: b("m128")?,
                 alias: b("alias")?,
@@ -1012,6 +1016,7 @@ fn run_probe(model: &mut Model, p: &Probe, rep: Option<&mut Report>) -> Option<D
         Probe::SigEnv { ym, rate, shape } => probe_sigenv(model, *ym, *rate, *shape, rep),
         Probe::SigPan { rate, mode, ch } => probe_sigpan(model, *rate, *mode, *ch, rep),
         Probe::SigFuzz { rate, seed, dc, ym } => probe_sigfuzz(model, *rate, *seed, *dc, *ym, rep),
+        Probe::Fir => probe_fir(model, rep),
         Probe::Port { m128, alias, ops } => probe_port(model, *m128, *alias, ops, rep),
     }
 }
@@ -1161,6 +1166,67 @@ impl<'a> Run<'a> {
             }
         }
     }
+}
+
+/// `(tap index, coefficient × 10^22)` of every term of `decimate`, read from the source text
+fn fir_from_source() -> Option<Vec<(usize, i128)>> {
+    let text = std::fs::read_to_string(".cache/repo/aym/src/backends/precise.rs").ok()?;
+    let a = text.find("fn decimate")?;
+    let b = a + text[a..].find("split_at_mut")?;
+    let mut out = vec![];
+    for line in text[a..b].lines() {
+        let Some(star) = line.find(" * ") else { continue };
+        let Some(xi) = line.find("x[") else { continue };
+        if xi < star {
+            continue;
+        }
+        let num = line[..star].trim().rsplit(|c: char| c.is_whitespace()).next()?.trim_start_matches('+');
+        let idx: usize = line[xi + 2..].split(']').next()?.parse().ok()?;
+        let (neg, digits) = match num.strip_prefix('-') {
+            Some(r) => (true, r),
+            None => (false, num),
+        };
+        let (ip, fp) = digits.split_once('.')?;
+        if fp.len() > 22 || !ip.chars().all(|c| c.is_ascii_digit()) || !fp.chars().all(|c| c.is_ascii_digit()) {
+            return None;
+        }
+        let mut v: i128 = ip.parse().ok()?;
+        v = v * 10i128.pow(22) + format!("{:0<22}", fp).parse::<i128>().ok()?;
+        out.push((idx, if neg { -v } else { v }));
+    }
+    if out.len() < 10 {
+        return None;
+    }
+    Some(out)
+}
+
+/// Skipped (a note, never a violation) when the text cannot be parsed any more: the amplitude bound is observed by the
+/// signal-level probes in any case.
+fn probe_fir(model: &mut Model, rep: Option<&mut Report>) -> Option<Disagreement> {
+    let Some(src) = fir_from_source() else {
+        if let Some(r) = rep {
+            r.notes.push("extractor_skipped: FIR coefficients not found in aym/src/backends/precise.rs".into());
+        }
+        return None;
+    };
+    let want = model.ask("spec fir");
+    let model_tab: Vec<(usize, i128)> =
+        want.split(',').filter_map(|t| t.split_once(':')).map(|(j, c)| (j.parse().unwrap(), c.parse().unwrap())).collect();
+    if let Some(r) = rep {
+        r.eval();
+        r.class(format!("fir table {} taps", src.len()));
+    }
+    if src != model_tab {
+        let diff = src.iter().zip(model_tab.iter()).find(|(a, b)| a != b);
+        return Some(dis(
+            Kind::ModelMismatch,
+            "C18/fir.table",
+            "FIR coefficients of `decimate` in the source differ from the table fir_bounded_Q was proved for",
+            format!("{} terms, first difference {:?}", src.len(), diff.map(|x| x.0)),
+            format!("{} terms, {:?}", model_tab.len(), diff.map(|x| x.1)),
+        ));
+    }
+    None
 }
 
 pub fn run(o: &Opts) -> Report {
@@ -1323,6 +1389,8 @@ addresses. distinct = generator/mode/shape/segment/gate classes seen by (1), par
             }
         }
     }
+    // (5) the FIR table of the ℚ-model against the text of the source under test
+    run.go(&Probe::Fir);
     run.finish();
     let reqs = run.model.requests;
     drop(run);
